@@ -111,6 +111,8 @@ class ComplexModel(object):
                 return dict.fromkeys(b).keys()
             return b
         IC = dict(self.init)
+        for k, s_ in enumerate(self.case.get('ic_extra') or []):
+            IC[('not-in-G', k)] = s_          # a dict made for a larger population: statuses of nodes that are not in G
         return EoN.Gillespie_complex_contagion(self.G, rate_function, transition_choice, get_influence_set, IC,
                                                self.ret if not full else self.statuses, tmin=self.tmin, tmax=self.tmax,
                                                parameters=(), return_full_data=full)
@@ -160,7 +162,7 @@ def prop_tree(case, walk=None, max_depth=10, max_levels=1500):
     fails, stats = steplaw.explore(model, 'Gillespie_complex_contagion', walk=walk, max_depth=max_depth,
                                    max_levels=max_levels, observe=observe)
     kinds = sorted(set(v[0] for v in model.rules.values()))
-    classes = (['lazy-influence'] if model.lazy else []) + (['chooser-flips-a-coin'] if model.alt else []) + ['rule:' + k for k in kinds] + ['hops%d' % model.hops, 'influence-set-as-' + case.get('infl_form', 'list')] + (['tmax-inf'] if model.tmax == INF else ['tmax-finite'])
+    classes = (['IC-has-keys-outside-G'] if case.get('ic_extra') else []) + (['repeated-return-status'] if len(set(model.ret)) < len(model.ret) else []) + (['lazy-influence'] if model.lazy else []) + (['chooser-flips-a-coin'] if model.alt else []) + ['rule:' + k for k in kinds] + ['hops%d' % model.hops, 'influence-set-as-' + case.get('infl_form', 'list')] + (['tmax-inf'] if model.tmax == INF else ['tmax-finite'])
     if flags['ended']:
         classes.append('ran-to-extinction-or-horizon')
     nt = flags['deep'] >= 2 and any(k != 'const' for k in kinds)
@@ -204,11 +206,14 @@ def model_case(draw):
     IC = [draw(st.sampled_from(names)) for _ in range(n)]
     sub = [s for s in names if draw(st.booleans())] or [names[0]]
     tmin = draw(st.sampled_from([0, 0, -1.5, 2]))
+    ic_extra = [draw(st.sampled_from(names)) for _ in range(draw(st.integers(1, 3)))] if draw(st.integers(0, 3)) == 0 else []
+    if draw(st.integers(0, 5)) == 0:
+        sub = sub + [draw(st.sampled_from(sub))]        # a status asked for twice is returned twice
     alt = {}
     if ns >= 3 and draw(st.integers(0, 2)) == 0:
         s = draw(st.sampled_from(sorted(rules)))
         alt[s] = draw(st.sampled_from([x for x in names if x != s and x != nxt[s]]))
-    return {'alt': alt, 'gc': gc, 'statuses': names, 'rules': rules, 'next': nxt, 'IC': IC,
+    return {'alt': alt, 'ic_extra': ic_extra, 'gc': gc, 'statuses': names, 'rules': rules, 'next': nxt, 'IC': IC,
             'ret': list(draw(st.permutations(sub))), 'tmin': tmin,
             'tmax': draw(st.sampled_from(['inf', 'inf', tmin + 1.0, tmin + 2.25, tmin + 100])),
             'walk': draw(st.lists(st.integers(0, 7), min_size=0, max_size=10)),
